@@ -1847,7 +1847,7 @@ func TestVerifC02CloseRace(t *testing.T) {
 			Release: []string{"start-waits-for-lock", "start-waits-for-lock", "immediately", "after-yield"}[r.Intn(4)]}
 	}
 	run.Sample(cases[0])
-	var undecided, next atomic.Int64
+	var undecided, next, hangs atomic.Int64
 	var wg sync.WaitGroup
 	for w := 0; w < 6; w++ {
 		wg.Add(1)
@@ -1855,7 +1855,7 @@ func TestVerifC02CloseRace(t *testing.T) {
 			defer wg.Done()
 			for {
 				i := int(next.Add(1) - 1)
-				if i >= len(cases) || run.Violations() >= 6 {
+				if i >= len(cases) || run.Violations() >= 6 || hangs.Load() >= 12 {
 					return
 				}
 				c := cases[i]
@@ -1947,6 +1947,7 @@ func TestVerifC02CloseRace(t *testing.T) {
 							continue wait
 						case <-poll.C:
 							if parked, sig := c02Parked(b); parked {
+								hangs.Add(1)
 								run.Violation("C02:closure|bridge-hang|script=close-races-target-attach", det(map[string]any{"bridge_goroutines": sig,
 									"what": "Bridge.Close was in progress when the target attached; after the slow source close completed, Start/Close stay parked (lock/transport waits) for ever: the target never observes closure and Start never returns"}))
 								break wait
